@@ -14,16 +14,18 @@ enum OpKind { ADD_V, ADD_B, DEL_B, DEL_V, RESET, STEP };
 struct Op { OpKind k; int obj; const char *name; };
 
 static const char *VNAME[3] = {"a", "b", "c"};
-static const char *BNAME[5] = {"h", "w", "hi", "f", "m"};
+static const int NBIAS = 6;
+static const char *BNAME[NBIAS] = {"h", "w", "hi", "f", "m", "g"};
 // variables each bias needs
-static const std::vector<int> BNEED[5] = {{0}, {1}, {0, 2}, {0}, {2}};
+static const std::vector<int> BNEED[NBIAS] = {{0}, {1}, {0, 2}, {0}, {2}, {0, 2}};
 
 static std::string vconf(int v)
 {
   switch (v) {
   case 0: return "colvar {\n name a\n width 0.5\n lowerBoundary 0.0\n upperBoundary 6.0\n distance {\n group1 { atomNumbers 1 2 }\n group2 { atomNumbers 3 }\n }\n}\n";
   case 1: return "colvar {\n name b\n width 0.5\n lowerBoundary 0.0\n upperBoundary 6.0\n extendedLagrangian on\n extendedFluctuation 0.3\n extendedTimeConstant 20.0\n distance {\n group1 { atomNumbers 3 }\n group2 { atomNumbers 4 }\n }\n}\n";
-  default: return "colvar {\n name c\n width 0.5\n lowerBoundary -6.0\n upperBoundary 6.0\n outputTotalForce on\n distanceZ {\n main { atomNumbers 5 6 }\n ref { atomNumbers 1 }\n }\n}\n";
+  // (a distance, so that its Jacobian force is not zero: a second ABF with hideJacobian uses it together with a)
+  default: return "colvar {\n name c\n width 0.5\n lowerBoundary 0.0\n upperBoundary 6.0\n outputTotalForce on\n distance {\n group1 { atomNumbers 5 6 }\n group2 { atomNumbers 1 }\n }\n}\n";
   }
 }
 static std::string bconf(int b)
@@ -33,6 +35,7 @@ static std::string bconf(int b)
   case 1: return "harmonicWalls {\n name w\n colvars b\n lowerWalls 1.0\n upperWalls 1.5\n forceConstant 3.0\n}\n";
   case 2: return "histogram {\n name hi\n colvars a c\n}\n";
   case 3: return "abf {\n name f\n colvars a\n fullSamples 1\n hideJacobian on\n}\n";  // (hideJacobian changes how the variable reports and receives forces while the bias exists)
+  case 5: return "abf {\n name g\n colvars a c\n fullSamples 1\n hideJacobian on\n}\n";  // shares a with f; c is listed after the shared variable
   default: return "metadynamics {\n name m\n colvars c\n hillWeight 0.4\n hillWidth 2.0\n newHillFrequency 1\n}\n";
   }
 }
@@ -41,16 +44,16 @@ static std::vector<Op> alphabet()
 {
   std::vector<Op> a;
   for (int v = 0; v < 3; v++) a.push_back({ADD_V, v, VNAME[v]});
-  for (int b = 0; b < 5; b++) a.push_back({ADD_B, b, BNAME[b]});
+  for (int b = 0; b < NBIAS; b++) a.push_back({ADD_B, b, BNAME[b]});
   a.push_back({STEP, 0, "step"});
-  for (int b = 0; b < 5; b++) a.push_back({DEL_B, b, BNAME[b]});
+  for (int b = 0; b < NBIAS; b++) a.push_back({DEL_B, b, BNAME[b]});
   for (int v = 0; v < 3; v++) a.push_back({DEL_V, v, VNAME[v]});
   a.push_back({RESET, 0, "reset"});
   return a;
 }
 
 // abstract state: which objects exist (to decide which ops are enabled, and to build filtered histories)
-struct Abs { bool v[3] = {false, false, false}; bool b[5] = {false, false, false, false, false}; };
+struct Abs { bool v[3] = {false, false, false}; bool b[NBIAS] = {false, false, false, false, false, false}; };
 
 static bool enabled(Abs const &s, Op const &o)
 {
@@ -70,7 +73,7 @@ static void apply_abs(Abs &s, Op const &o)
   case DEL_B: s.b[o.obj] = false; break;
   case DEL_V:
     s.v[o.obj] = false;
-    for (int b = 0; b < 5; b++) for (int v : BNEED[b]) if (v == o.obj) s.b[b] = false;
+    for (int b = 0; b < NBIAS; b++) for (int v : BNEED[b]) if (v == o.obj) s.b[b] = false;
     break;
   case RESET: s = Abs(); break;
   default: break;
@@ -202,7 +205,7 @@ static Trace run_history(std::vector<Op> const &alpha, std::vector<int> const &h
       t.nums.push_back(cv ? cv->value().real_value : -999.0);
       t.nums.push_back(cv ? cv->applied_force().real_value : -999.0);
     }
-    for (int b = 0; b < 5; b++) { colvarbias *bb = px->bias(BNAME[b]); t.nums.push_back(bb ? bb->get_energy() : -999.0); }
+    for (int b = 0; b < NBIAS; b++) { colvarbias *bb = px->bias(BNAME[b]); t.nums.push_back(bb ? bb->get_energy() : -999.0); }
     t.nums.push_back(px->energy);
     for (int a = 0; a < 6; a++) { t.nums.push_back(px->fapp[a].x); t.nums.push_back(px->fapp[a].y); t.nums.push_back(px->fapp[a].z); }
     if (check_invariants && t.problem.empty()) {
